@@ -2,6 +2,7 @@ package eng
 
 import (
 	"go/token"
+	"go/types"
 	"strings"
 
 	"golang.org/x/tools/go/ssa"
@@ -14,6 +15,13 @@ func CondEdgesP(fn *ssa.Function, pred func(cond ssa.Value) bool, branch bool) *
 	if fn == nil {
 		return s
 	}
+	add := func(b *ssa.BasicBlock, flip bool) {
+		if branch != flip {
+			s.AddE(Edge{b, 0})
+		} else {
+			s.AddE(Edge{b, 1})
+		}
+	}
 	for _, b := range fn.Blocks {
 		if len(b.Instrs) == 0 {
 			continue
@@ -23,14 +31,58 @@ func CondEdgesP(fn *ssa.Function, pred func(cond ssa.Value) bool, branch bool) *
 			continue
 		}
 		if pred(iff.Cond) {
-			if branch {
-				s.AddE(Edge{b, 0})
-			} else {
-				s.AddE(Edge{b, 1})
+			add(b, false)
+			continue
+		}
+		// the same test may be written with the opposite operator and the branches swapped, or with the
+		// operands in the other order: the predicate is also tried on those equivalent forms (first match wins)
+		for _, v := range equivalentConds(iff.Cond) {
+			if safePred(pred, v.cond) {
+				add(b, v.flip)
+				break
 			}
 		}
 	}
 	return s
+}
+
+type equivCond struct {
+	cond ssa.Value
+	flip bool
+}
+
+func equivalentConds(c ssa.Value) []equivCond {
+	switch x := c.(type) {
+	case *ssa.UnOp:
+		if x.Op == token.NOT {
+			return []equivCond{{x.X, true}}
+		}
+	case *ssa.BinOp:
+		mirror := map[token.Token]token.Token{token.EQL: token.EQL, token.NEQ: token.NEQ, token.LSS: token.GTR, token.GTR: token.LSS, token.LEQ: token.GEQ, token.GEQ: token.LEQ}
+		neg := map[token.Token]token.Token{token.EQL: token.NEQ, token.NEQ: token.EQL, token.LSS: token.GEQ, token.GEQ: token.LSS, token.GTR: token.LEQ, token.LEQ: token.GTR}
+		if _, ok := mirror[x.Op]; !ok {
+			return nil
+		}
+		out := []equivCond{{&ssa.BinOp{Op: mirror[x.Op], X: x.Y, Y: x.X}, false}}
+		if bt, isB := x.X.Type().Underlying().(*types.Basic); isB && bt.Info()&types.IsFloat != 0 && x.Op != token.EQL && x.Op != token.NEQ {
+			return out // ordered float comparisons are not negated by flipping the operator (NaN)
+		}
+		return append(out,
+			equivCond{&ssa.BinOp{Op: neg[x.Op], X: x.X, Y: x.Y}, true},
+			equivCond{&ssa.BinOp{Op: mirror[neg[x.Op]], X: x.Y, Y: x.X}, true})
+	}
+	return nil
+}
+
+// safePred applies pred to a synthetic condition (not part of any function: no type, no block); a predicate
+// that needs more than operator and operands of the condition itself simply does not match it.
+func safePred(pred func(ssa.Value) bool, v ssa.Value) (ok bool) {
+	defer func() {
+		if recover() != nil {
+			ok = false
+		}
+	}()
+	return pred(v)
 }
 
 // Mentions: the backward slice of v (not through call arguments) meets a value satisfying p.
